@@ -21,7 +21,6 @@ def eastrVal (y yd0 : Nat) (o : Int) : Nat :=
 def eastrStep (y yd0 : Nat) (cand : List Nat) (o : Int) : List Nat :=
   if eastrOk y yd0 o then assC cand (eastrVal y yd0 o) else cand
 
-set_option maxHeartbeats 40000 in
 theorem fill_eq (cand : List Nat) (y : Nat) (offs : List Int) :
     fillYlyEastr cand y offs [] [] 0 = offs.foldl (eastrStep y (easterGetYday y)) cand := by
   unfold fillYlyEastr
